@@ -10,6 +10,9 @@
                     it returns exist and bind get_veff; _CiderDF / Gradients aliases point at it
  grad-half          the weighted potential passed to _gga_grad_sum_ / _tau_grad_dot_ has its density row
                     (and tau row) halved exactly once on the way
+ grad-spin-mirror   uks_grad.py: every statement that addresses exactly one spin channel through a literal spin slot
+                    (dms[1], vmat[0], wv[1, 4], spin=1 ...) occurs as often as its mirror image under the exchange
+                    of the spin-tagged locals (…a <-> …b, alpha <-> beta) and of the slot 0 <-> 1
  grad-batch-index   batch-index discipline (C09 rule 1) on the 8 gradient functions
 """
 import ast
@@ -145,6 +148,10 @@ def rule_half(chk):
     ks.half_rule(chk, "grad-half", chk.tree, [(RKSG, n) for n in GRADS] + [(UKSG, n) for n in GRADS])
 
 
+def rule_spin_mirror(chk):
+    ks.spin_mirror_rule(chk, "grad-spin-mirror", chk.tree, UKSG, GRADS + ["get_veff"])
+
+
 def rule_batch(chk):
     for rel in (RKSG, UKSG):
         for name in GRADS:
@@ -157,11 +164,14 @@ def _analyse_own(chk):
     chk.rule("unsupported-raise", "SDMX / NLOF models raise NotImplementedError before any eval_xc_cider call")
     chk.rule("dispatch-total", "nuc_grad_method returns a matching Gradients class or raises on every path")
     chk.rule("grad-half", "density / tau rows of the weighted potential halved exactly once before the contraction")
+    chk.rule("grad-spin-mirror", "uks_grad: a statement addressing one literal spin slot has its alpha<->beta mirror image")
     chk.rule("grad-batch-index", "batch-index discipline on the gradient functions")
     chk.guard(rule_unsupported)
     chk.guard(rule_dispatch)
     chk.guard(rule_half)
     chk.guard(rule_batch)
+    chk.guard(rule_spin_mirror)
+    chk.floor("grad-spin-mirror", 6, "statements addressing one spin slot in the four UKS gradient functions")
     chk.floor("unsupported-raise", 8, "8 entry points x {SDMX, NLOF}")
     chk.floor("dispatch-total", 3, "1 totality + 4 returns + aliases")
     chk.floor("grad-half", 12, "gga/tau contraction sites of the 8 functions")
@@ -216,6 +226,15 @@ def mutants(tree):
                expect="grad-half"),
         Mutant("halving of the wrong spin array (uks get_vxc_nldf)", UKSG, "        wvb[0] *= 0.5\n", "        wva[0] *= 0.5\n",
                expect="grad-half"),
+        Mutant("beta grid response contracted with the alpha density matrix (nldf)", UKSG,
+               'excsum[atm_id] += np.einsum("xij,ji->x", vtmp, dms[1]) * 2', 'excsum[atm_id] += np.einsum("xij,ji->x", vtmp, dms[0]) * 2',
+               count=2, expect="grad-spin-mirror"),
+        Mutant("beta matrix accumulated into the alpha slot", UKSG, "        vmat[1] += vtmp\n", "        vmat[0] += vtmp\n",
+               expect="grad-spin-mirror"),
+        Mutant("beta tau term uses the alpha potential", UKSG, "rks_grad._tau_grad_dot_(vmat[1], mol, ao, wv[1, 4], mask, ao_loc, True)",
+               "rks_grad._tau_grad_dot_(vmat[1], mol, ao, wv[0, 4], mask, ao_loc, True)", expect="grad-spin-mirror"),
+        Mutant("beta features from the alpha density", UKSG, "ni.nldfgen.get_features(rhob_full, spin=1)",
+               "ni.nldfgen.get_features(rhoa_full, spin=1)", expect="grad-spin-mirror"),
         Mutant("stale batch index in gradient", RKSG, "        _gga_grad_sum_(vmat[idm], mol, ao, wv, mask, ao_loc)",
                "        _gga_grad_sum_(vmat[i], mol, ao, wv, mask, ao_loc)", expect="grad-batch-index"),
     ]
